@@ -312,10 +312,24 @@ class SymNP:
         parts = []
         allconst = True
         for idx in np.ndindex(a.shape):
-            d = lift(a[idx]) - lift(b[idx])
-            bb = lift(b[idx]).const()
+            if a[idx] is b[idx]:
+                continue
+            if type(a[idx]).__name__ == 'Angle' or type(b[idx]).__name__ == 'Angle':
+                parts.append(self._angle_close(a[idx], b[idx], rtol, atol, zc))
+                continue
+            bl = lift(b[idx])
+            d = lift(a[idx]) - bl
+            if d.const() is not None and d.const() == 0:
+                continue
+            bb = bl.const()
             if bb is None:
-                raise UnsupportedInShim('allclose with symbolic reference')
+                # symbolic reference: |d| <= atol + rtol*|b| with the sign of b as a case split inside the formula
+                ta = lift(Fraction(repr(atol)))
+                tr = lift(Fraction(repr(rtol))) * bl
+                tp, tn = ta + tr, ta - tr
+                parts.append(z3.Or(z3.And(zc.cmp0(bl, '>='), zc.cmp0(d - tp, '<='), zc.cmp0(d + tp, '>=')),
+                                   z3.And(zc.cmp0(bl, '<'), zc.cmp0(d - tn, '<='), zc.cmp0(d + tn, '>='))))
+                continue
             tol = Fraction(repr(atol)) + Fraction(repr(rtol)) * abs(bb)
             parts.append(z3.And(zc.cmp0(d - lift(tol), '<='), zc.cmp0(d + lift(tol), '>=')))
         f = z3.simplify(z3.And(parts))
@@ -324,6 +338,25 @@ class SymNP:
         if z3.is_false(f):
             return False
         return explore.SymBool(f)
+
+    def _angle_close(self, x, y, rtol, atol, zc):
+        """|x - y| <= atol + rtol*|y| for angle-valued entries (only mutated code gets here: the unchanged tree never hands angles to
+        allclose).  Approximation, stated in the stubs: |y| is taken as 90 deg (pi/2 rad) in the tolerance, |x-y| < pi is assumed, and
+        cos t = 1 - t^2/2 for the tiny tolerance t.  Any counterexample that depends on this is replayed on the real code before it is reported."""
+        import math
+        from .angle import Angle
+        def cs(v, like):
+            if isinstance(v, Angle):
+                return v.c, v.s
+            val = float(v) * (math.pi / 180.0 if like.is_deg() else 1.0)
+            return lift(Fraction(repr(round(math.cos(val), 15)))), lift(Fraction(repr(round(math.sin(val), 15))))
+        like = x if isinstance(x, Angle) else y
+        cx, sx = cs(x, like)
+        cy, sy = cs(y, like)
+        deg = like.is_deg()
+        t = (atol + rtol * (90.0 if deg else math.pi / 2)) * (math.pi / 180.0 if deg else 1.0)
+        K = 1 - Fraction(repr(t)) ** 2 / 2
+        return zc.cmp0(cx * cy + sx * sy - lift(K), '>=')
 
     def mod(self, x, m):
         def one(a):
